@@ -509,11 +509,12 @@ func (t *timeTicker) Stop() {
 }
 
 func (t *timeTicker) Next(now time.Time) time.Time {
-	next := now.Add(t.every)
 	if t.align {
-		next = next.Round(t.every)
+		// The next aligned tick is the least multiple of every after now,
+		// the same instant the live ticker (see Start) produces.
+		return now.Truncate(t.every).Add(t.every)
 	}
-	return next
+	return now.Add(t.every)
 }
 
 type cronTicker struct {
